@@ -287,8 +287,14 @@ class DrivePart:
     def __call__(self, prop, tier, seed):
         run, skipped = vlib.runnable_archs()
         mods = []
+        extra_args = []
         for h in self.harnesses:
-            if h in self.probed:
+            if h == "perm":
+                pc = CHECKS["C05"]
+                hp, dp = pc.gen(tier, seed)
+                res, errs, _ = vlib.build_modules_probed(h, run, ['-DXV_PERM_MASKS="%s"' % hp])
+                extra_args = ["--perm-tables", dp]
+            elif h in self.probed:
                 res, errs, _ = vlib.build_modules_probed(h, run)
             else:
                 res, errs = vlib.build_modules(h, run)
@@ -301,7 +307,7 @@ class DrivePart:
         os.makedirs(vlib.OUT, exist_ok=True)
         out = os.path.join(vlib.OUT, "%s.%s.drive.json" % (prop, tier))
         known = ",".join(f["id"] for f in vlib.open_findings(prop))
-        cmd = [drv, "--prop", prop, "--tier", tier, "--seed", str(seed), "--out", out, "--threads", str(vlib.NPROC), "--deadline", "3000"] + self.args
+        cmd = [drv, "--prop", prop if "--placement" in self.args else "C05" if "perm" in self.harnesses else prop, "--tier", tier, "--seed", str(seed), "--out", out, "--threads", str(vlib.NPROC), "--deadline", "3000"] + self.args + extra_args
         if known:
             cmd += ["--known", known]
         for m in mods:
@@ -583,6 +589,67 @@ class PermCheck(Elementwise):
         return 0 if p.returncode == 0 else 2
 
 
+class ConstPrograms:
+    """C19 part: one generated program per architecture (static_asserts + run-time lane comparisons)."""
+
+    def __call__(self, prop, tier, seed):
+        run, skipped = vlib.runnable_archs()
+        allarchs = [a[0] for a in vlib.ARCHS]
+        gen_dir = os.path.join(vlib.BUILD, "gen")
+        nseed = 8 if tier == "quick" else 32
+        g = os.path.join(vlib.VERIF, "gen", "gen_const.py")
+
+        def one(arch):
+            name, tag, flags, _ = vlib.ARCH_BY_NAME[arch]
+            width = {"emulated128": 16, "emulated256": 32}.get(arch, 16 if ("sse" in arch) else (32 if ("avx5" not in arch) else 64))
+            out = []
+            for kind in ("main", "min"):
+                src = os.path.join(gen_dir, "const.%s.%s.%s.cpp" % (arch, tier, kind))
+                if kind == "main":
+                    text = subprocess.run([sys.executable, g, arch, tag, str(width), str(seed), str(nseed)], stdout=subprocess.PIPE, stderr=subprocess.DEVNULL, text=True).stdout
+                else:
+                    text = subprocess.run([sys.executable, g, "--min-probe", tag, str(width)], stdout=subprocess.PIPE, text=True).stdout
+                vlib.write_if_changed(src, text)
+                target = os.path.join(vlib.OBJ, "const.%s.%s.%s" % (arch, tier, kind))
+                ok, log = vlib.build_object(target, [vlib.CXX, "-std=c++17", "-O0", "-I" + os.path.join(vlib.REPO, "include")] + flags.split() + [src], [src])
+                fails, checks = [], 0
+                if not ok:
+                    fails = [l.strip()[-300:] for l in log.splitlines() if ("static assertion failed" in l or "error:" in l)][:12] or [log[-500:]]
+                elif arch in run:
+                    p = subprocess.run([target], stdout=subprocess.PIPE, stderr=subprocess.STDOUT, text=True)
+                    lines = p.stdout.splitlines()
+                    fails = [l for l in lines if l.startswith("FAIL")][:12]
+                    if p.returncode != 0 and not fails:
+                        fails = ["program exited with status %d: %s" % (p.returncode, p.stdout[-200:])]
+                    for l in lines:
+                        if l.startswith("ok ") or l.startswith("FAILED "):
+                            try:
+                                checks = int(l.split()[1])
+                            except ValueError:
+                                pass
+                out.append((kind, text.count("static_assert("), text.count("xs::batch_constant<") + text.count("xs::batch_bool_constant<") + text.count("xsimd::batch_constant<"), checks, fails, src))
+            return arch, out
+
+        from concurrent.futures import ThreadPoolExecutor
+        res = {"states": 0, "transitions": 0, "distinct_nontrivial": 0, "exhaustive": True, "violations": [], "by_key": {}, "by_finding": {}, "notes": [], "samples": [], "architectures": allarchs, "per_arch_points": {}}
+        with ThreadPoolExecutor(max_workers=vlib.NPROC) as ex:
+            for arch, out in ex.map(one, allarchs):
+                for kind, nassert, ninst, checks, fails, src in out:
+                    res["states"] += ninst
+                    res["transitions"] += nassert + checks
+                    res["distinct_nontrivial"] += ninst
+                    res["per_arch_points"][arch] = res["per_arch_points"].get(arch, 0) + nassert + checks
+                    if kind == "main":
+                        res["notes"].append("%s: %d constant instantiations, %d static assertions, %d run-time lane checks" % (arch, ninst, nassert, checks))
+                    for f in fails:
+                        res["violations"].append({"property": prop, "op": "batch_constant", "type": "program", "arch": arch, "note": f, "finding": "", "in": [], "program": os.path.relpath(src, vlib.VERIF)})
+                        k = "batch_constant|program|%s|" % arch
+                        res["by_key"][k] = res["by_key"].get(k, 0) + 1
+        res["violations_unknown"] = res["violations_total"] = len(res["violations"])
+        res["samples"] = [{"program": "build/gen/const.avx2.%s.main.cpp" % tier, "example": "using C_int16_t_onehot3 = xs::batch_constant<int16_t, A, 0, 0, 0, 7, 0, ...>; static_assert(C().get(3) == 7); run time: as_batch() lane 3 == 7, implicit conversion, select(batch_bool_constant) == select(as_batch_bool())"}]
+        return res, skipped
+
+
 RULE_MATH = ("every point of the stated argument space is evaluated twice, once among neighbouring arguments and once in a strided order where "
              "the lanes of one batch come from 16 distant parts of the space, by every architecture's real kernel; each lane result is judged "
              "against the exact value (ulp bound inside the normal range, graceful-degradation predicate outside); states = arguments x orders; "
@@ -638,6 +705,12 @@ CHECKS = {
         "thorough": "all 2^32 float32 arguments of every unary function and the C11 thorough lattice"}, extra_args=["--ticks"]),
     "C15": CpuidCheck(),
     "C18": AllocCheck(),
+    "C19": Composite([
+        ("programs", ConstPrograms()),
+        ("constant-apis", DrivePart(["perm"], ["--only", "swizzle.const,swizzle.dyn,shuffle.const,insert,get,get.const,slide_left,slide_right,rotate_left,rotate_right"], probed=["perm"])),
+    ], "programs: one generated program per architecture holding the stated value packs as batch_constant / batch_bool_constant instantiations; get(i), mask(), make_batch_constant<G> and every compile-time operator are static_asserted against values computed by the generator (a wrong constant is a compile error), as_batch()/as_batch_bool()/implicit conversion/select(constant mask) are compared lane by lane at run time; constant-apis: the constant-mask and template-count forms of swizzle, shuffle, insert, get, slide, rotate are executed and compared with the same index-level reference as the run-time forms (C05 machinery); states = instantiations; transitions = assertions + lane comparisons", {
+        "quick": "per integer element type and architecture (lane counts 2..64): one-hot and all-but-one packs for every lane (a subset of 14 lanes for 32/64), arange, reverse, constant, alternating, extremes incl. the most negative value, 8 seed packs; the same for Boolean packs incl. mask() for <= 32 lanes; 3 generators; 8 binary + 2 unary operators on 5 pack pairs, 5 Boolean operators + 2 unary on 4 pairs; all 22 architectures",
+        "thorough": "32 seed packs per type; the thorough mask families of C05 for the constant APIs"}),
     "C20": GeometryCheck(),
     "C17": Elementwise(["scalar"], RULE_EW + "; the scalar overloads are run one element per call and judged by the same reference models as the batch lanes (so scalar == batch wherever the model is single-valued); NaN operands are outside the property", {
         "quick": "the C01/C02/C03/C06/C07/C08 operand spaces (8-bit pairs exhaustive, ALL16 x L16, lattices^2, every shift/rotate count, fp lattices, rounding windows) for add, sub, mul, div, mod, neg, abs, min, max, sadd, ssub, avg, avgr, incr/decr(_if), bitwise operators, shifts, rotates, comparisons, select, is_flint/is_even/is_odd, fma family, nearbyint_as_int, bitwise_cast, clip, pow with 21 integer exponents (scalar and batch forms against the shared square-and-multiply model); all 22 architectures' compile flags",
